@@ -1,4 +1,4 @@
-\* C16: lexeme sequences of length 3 over the semicolon-relevant pool
+\* C16: lexeme sequences of length 3 over the semicolon-relevant pool x separators "", "\n", "//c\n"
 \* alphabet: 
 SPECIFICATION Spec
 CONSTANTS
@@ -8,6 +8,6 @@ CONSTANTS
   Dialects = {"xgo", "go"}
   CommentModes = {TRUE}
   InputMode = "lexemes"
-  Gen = "gomix"
+  Gen = "gomix3"
 INVARIANTS TypeOK TokenBound OffsetsMonotone TextExact Partition Export
 PROPERTIES Progress
